@@ -190,4 +190,47 @@ PamFb(c) ==
            ELSE IF cred = "err" THEN "CONV_ERR"
            ELSE IF c.hash \in PamSupported /\ cred = "right" THEN "SUCCESS" ELSE "AUTH_ERR"
 
+(***************************************************************************)
+(* Section Offline (C44)                                                   *)
+(*                                                                         *)
+(* L0. One directory user; the server holds its current password srv. Each *)
+(* machine m has its own hardware-bound key (soft TPM context + machine    *)
+(* key + sealed HMAC key) and a credential cache cache[m] = OffNone or     *)
+(* [pw, key]: the password it was derived from and the machine whose key   *)
+(* sealed it. last[m] = the most recent password verified ONLINE on m.     *)
+(* Steps: online(m, p) login while the server is reachable; pwchange(p) on *)
+(* the server; offline(m, p) login while it is unreachable; swap(m1, m2):  *)
+(* the cached user record of m1 is copied into the cache of m2.            *)
+(* Result classes: accept | deny | nocred (no offline credential) | error. *)
+(* Logged line: {a, lvl:"provider"|"resolver"|"helper", m, p, m2, res}     *)
+(* after {a:"reset"}.                                                      *)
+(***************************************************************************)
+OffNone == [pw |-> "none", key |-> "none"]
+OffInit(M) == [srv |-> "p1", cache |-> [m \in M |-> OffNone], last |-> [m \in M |-> "none"]]
+
+\* L1 ---------------------------------------------------------------------
+\* "accepts a password only if it equals the most recent password verified online for that user on this
+\*  machine, and only if that cached credential was sealed with this machine's hardware-bound key"
+\* B is bookkeeping derived from OBSERVED results: last[m], and prov[m] = the machine on which the record now
+\* cached on m was produced (moved around by swap).
+OffB0(M) == [last |-> [m \in M |-> "none"], prov |-> [m \in M |-> "none"]]
+OffL1(B, m, p, res) == res = "accept" => (B.last[m] = p /\ B.prov[m] = m)
+OffBNext(B, r) ==
+  CASE r.a = "online" /\ r.res = "accept" -> [B EXCEPT !.last[r.m] = r.p, !.prov[r.m] = r.m]
+    [] r.a = "swap" -> [B EXCEPT !.prov[r.m2] = B.prov[r.m]]
+    [] OTHER -> B
+
+\* L2 ---------------------------------------------------------------------
+\* KanidmProvider::unix_user_online_auth_step: the server verifies; success re-derives the cached credential with
+\* this machine's HMAC key (kanidm_update_cached_password); denial leaves the cache as it is.
+OffOnline(S, m, p) ==
+  IF p = S.srv THEN [res |-> "accept", S |-> [S EXCEPT !.cache[m] = [pw |-> p, key |-> m], !.last[m] = p]]
+  ELSE [res |-> "deny", S |-> S]
+OffPwChange(S, p) == [S EXCEPT !.srv = p]
+\* unix_user_offline_auth_init / _step: kanidm_check_cached_password = argon2id keyed through THIS machine's TPM key
+OffOffline(S, m, p) ==
+  IF S.cache[m] = OffNone THEN "nocred"
+  ELSE IF S.cache[m].pw = p /\ S.cache[m].key = m THEN "accept" ELSE "deny"
+OffSwap(S, m1, m2) == [S EXCEPT !.cache[m2] = S.cache[m1]]
+
 =============================================================================
